@@ -45,6 +45,15 @@ def configs(tier):
     return out
 
 
+def _ratio_ok(got, num, den, de):
+    """got * den == num up to 1e-9 relative: the code divides by (k - 1) in concrete floats (1/3 is not a binary fraction), the
+    definition above is exact"""
+    eps = Fraction(1, 10 ** 9)
+    g, n_, d_ = lift(got), lift(num), lift(den)
+    slack = lift(eps) * (n_ + d_ * lift(de) + d_)
+    return SymBool(z3.Implies(d_ > 0, z3.And(g * d_ - n_ <= slack, n_ - g * d_ <= slack)))
+
+
 def definition(tuples, alpha, de, pos, cat, category):
     """(numerator, denominator, counted real/real pairs) written from the statement.
     tuples: list of lists of (uid or None, label)."""
@@ -62,7 +71,9 @@ def definition(tuples, alpha, de, pos, cat, category):
                     num = num + de * de
                     den = den + de
                     continue
-                w = core.s_max(0, 1 - alpha * pos(u1, u2)) / (k - 1)
+                # 1/(k-1) as the binary64 number the code works with (1/3 is not a binary fraction; the difference with the exact
+                # rational is 2^-54 relative and would otherwise need a tolerance, i.e. nonlinear inequalities, in every query)
+                w = core.s_max(0, 1 - alpha * pos(u1, u2)) * Fraction(1.0 / (k - 1))
                 num = num + w * cat(u1, u2)
                 den = den + w
                 cnt += 1
@@ -206,8 +217,12 @@ def harness(cfg, ns):
         try:
             # overall (positional + categorical) disorders: any values >= 0 - the categorical measures must not depend on them
             overall = [ctx.fresh("overall", lo=0) for _ in range(4)]
-            best = al.Alignment([], None, disorder=overall[0])
-            chance = [al.Alignment([], None, disorder=overall[1 + i]) for i in range(3)]
+            # the alignments hold units: the best one and two chance ones hold category 'x', one chance alignment does not (it counts in the mean all the same)
+
+            def _ua(l1, l2):
+                return [al.UnitaryAlignment([(ANN[0], co.Unit(Segment(0, 1), l1)), (ANN[1], co.Unit(Segment(0, 1), l2))])]
+            best = al.Alignment(_ua("x", "y"), None, disorder=overall[0])
+            chance = [al.Alignment(_ua(*labs), None, disorder=overall[1 + i]) for i, labs in enumerate((("x", "x"), ("y", "y"), ("x", "y")))]
 
             class D:
                 pass
@@ -226,6 +241,9 @@ def harness(cfg, ns):
                                                                       [((([best] + chance).index(next(a for a in [best] + chance if id(a) == k[0])), k[1]), v) for k, v in vals.items()]})
             o = []
             for cat_, g in seq:
+                if any((id(x), cat_) not in vals for x in [best] + chance):
+                    o.append(Obl(f"every alignment of the result enters the measure[{cat_}]", False, rzs))
+                    continue
                 ob = vals[(id(best), cat_)]
                 mean = (vals[(id(chance[0]), cat_)] + vals[(id(chance[1]), cat_)] + vals[(id(chance[2]), cat_)]) / 3
                 o.append(Obl(f"each measure of the sequence uses its own category's disorders[{cat_}]", core.eq(g, 1 - ob / mean), rzs))
@@ -237,6 +255,7 @@ def harness(cfg, ns):
         obs = vals[id(best)]
         ch = [vals.get(id(x)) for x in chance]
         obls = [Obl("category-forwarded", set(cats_seen) == ({None} if meth == "gamma_cat" else {"x"}), rz)]
+        obls.append(Obl("every chance alignment enters the mean (whether or not it holds the category)", all(c is not None for c in ch), rz))
         if all(c is not None for c in ch):
             mean = (ch[0] + ch[1] + ch[2]) / 3
             obls.append(Obl("value==1-observed/mean(chance)-when-observed-and-mean>0",
@@ -335,10 +354,16 @@ def replay(case):
         from unittest import mock
         import pygamma_agreement.continuum as co
         OV = [F(x) for x in case.get("overall", ["1", "1", "1", "1"])]
+
+        def _ua(l1, l2):
+            return [UnitaryAlignment([(ANN[0], pa.Unit(Segment(0, 1), l1)), (ANN[1], pa.Unit(Segment(0, 1), l2))])]
         if case["meth"] == "sequence":
             V = {(int(k.split("|")[0]), None if k.split("|")[1] == "None" else k.split("|")[1]): F(v) for k, v in case["vals"].items()}
-            best = Alignment([], None, disorder=OV[0])
-            chance = [Alignment([], None, disorder=OV[1 + i]) for i in range(3)]
+            if str(case.get("_obligation", "")).startswith("every"):
+                OV = [1.0, 1.0, 1.0, 1.0]
+                V = {(i, c_): 0.2 + 0.15 * i + (0.05 if c_ == "y" else 0.1 if c_ is None else 0.0) for i in range(4) for c_ in ("x", "y", None)}
+            best = Alignment(_ua("x", "y"), None, disorder=OV[0])
+            chance = [Alignment(_ua(*labs), None, disorder=OV[1 + i]) for i, labs in enumerate((("x", "x"), ("y", "y"), ("x", "y")))]
             objs = [best] + chance
             with mock.patch.object(Alignment, "gamma_k_disorder", lambda self, d, c: V[(objs.index(self), c)]):
                 res = co.GammaResults(best_alignment=best, chance_alignments=chance, dissimilarity=None)
@@ -350,8 +375,10 @@ def replay(case):
                     bad.append(f"measure for category {c_!r} in the sequence = {g}, expected {want}")
             return dict(reproduced=bool(bad), detail="; ".join(bad[:2]))
         vals = [F(v) if v is not None else 1.0 for v in case["vals"]]
-        best = Alignment([], None, disorder=OV[0])
-        chance = [Alignment([], None, disorder=OV[1 + i]) for i in range(3)]
+        if str(case.get("_obligation", "")).startswith("every"):
+            vals, OV = [0.5, 0.3, 0.9, 0.6], [1.0, 1.0, 1.0, 1.0]       # generic values: which alignments enter the mean is what is at stake
+        best = Alignment(_ua("x", "y"), None, disorder=OV[0])
+        chance = [Alignment(_ua(*labs), None, disorder=OV[1 + i]) for i, labs in enumerate((("x", "x"), ("y", "y"), ("x", "y")))]
         table = {id(best): vals[0], **{id(c): v for c, v in zip(chance, vals[1:])}}
         with mock.patch.object(Alignment, "gamma_k_disorder", lambda self, d, c: table[id(self)]):
             res = co.GammaResults(best_alignment=best, chance_alignments=chance, dissimilarity=None)
